@@ -633,6 +633,8 @@ pub struct ConnOut {
     pub started_ms: u64,
     pub flush_calls: u64,
     pub flush_ready_steps: Vec<u64>,
+    /// steps after which every task was parked with no flush outstanding on this connection
+    pub parked_steps: Vec<u64>,
     /// bytes accepted by a buffering transport but never flushed to the wire
     pub lost_staged: Vec<u8>,
 }
@@ -841,6 +843,7 @@ async fn run_h1_inner(sc: H1Scenario, tape: Tape, narr: bool) -> H1Out {
     let mut max_ra: Vec<i64> = vec![0; sc.conns.len()];
     let mut max_wa: Vec<i64> = vec![0; sc.conns.len()];
     let mut started_ms: Vec<u64> = vec![0; sc.conns.len()];
+    let mut parked: Vec<Vec<u64>> = vec![Vec::new(); sc.conns.len()];
     let max_chunk: Vec<usize> = sc
         .conns
         .iter()
@@ -878,6 +881,16 @@ async fn run_h1_inner(sc: H1Scenario, tape: Tape, narr: bool) -> H1Out {
         };
         for t in ex.runnable() {
             acts.push((Act::Run(t), sc.sched.w_run));
+        }
+        if acts.is_empty() {
+            // every task is parked: whatever the connections could do with what they have, they did
+            for i in 0..sc.conns.len() {
+                let sock = sh.socks.borrow()[i].st.clone();
+                let sock = sock.borrow();
+                if !sock.flush_blocked && !sock.pending_read_wake && parked[i].last() != Some(&clock.step()) {
+                    parked[i].push(clock.step());
+                }
+            }
         }
         for (i, cs) in sc.conns.iter().enumerate() {
             let st = &cstate[i];
@@ -1192,7 +1205,7 @@ async fn run_h1_inner(sc: H1Scenario, tape: Tape, narr: bool) -> H1Out {
                 let sock = sock.borrow();
                 let rec = sh.conns.borrow()[i].clone();
                 let rec = rec.borrow();
-                line.push_str(&format!(" | c{}: read={} out={} calls={}", i, sock.read_total, sock.out.len(), rec.seen.len()));
+                line.push_str(&format!(" | c{}: read={} out={} calls={}{}{}{}", i, sock.read_total, sock.out.len(), rec.seen.len(), if sock.flush_blocked { " flush-pending" } else { "" }, if sock.shutdown_called.is_some() { " shutdown-called" } else { "" }, if sock.read_waker.is_some() { " read-parked" } else { "" }));
             }
             narrative.push(line);
         }
@@ -1266,6 +1279,7 @@ async fn run_h1_inner(sc: H1Scenario, tape: Tape, narr: bool) -> H1Out {
             started_ms: started_ms[i],
             flush_calls: sock.flush_calls,
             flush_ready_steps: sock.flush_ready_steps.clone(),
+            parked_steps: parked[i].clone(),
             lost_staged: sock.staged.clone(),
         });
     }
